@@ -162,7 +162,9 @@ class YamlDocument(HierDictDocument):
 
             ctx.in_document = yaml.load(s, **self.in_kwargs)
 
-        except ParserError as e:
+        except (yaml.YAMLError, UnicodeDecodeError) as e:
+            # ParserError is only one of the errors yaml.load() can raise:
+            # ScannerError, ReaderError, ComposerError, ConstructorError...
             raise Fault('Client.YamlDecodeError', repr(e))
 
     def create_out_string(self, ctx, out_string_encoding='utf8'):
